@@ -360,6 +360,12 @@ func (c Call) invoke(cfg *Config, t *fakeT) callResult {
 			b := []byte(doc)
 			in = b
 			check = func() bool { return bytes.Equal(b, []byte(doc)) }
+		case "bytes_reused":
+			// the test encodes every document into ONE buffer it keeps (bytes.Buffer.Reset + Encode): same backing array,
+			// same length for documents of the same size, other content
+			b := t.reuse(doc)
+			in = b
+			check = func() bool { return bytes.Equal(b, []byte(doc)) }
 		case "value":
 			in = jsonValueOf(doc)
 		default:
